@@ -335,6 +335,17 @@ pub fn function_family(aliases: u32) -> Vec<FuncDesc> {
     }
     for k in 0..aliases.max(2) {
         out.push(FuncDesc {
+            name: format!("tag{}", k + 1),
+            sem: Sem::Ctx,
+            params: vec![(ArgKind::Both, RType::Bytes)],
+            opts: vec![
+                (ArgKind::Both, RV::Bytes(vec![])),
+                (ArgKind::Both, RV::Bytes(vec![])),
+            ],
+            ret: RType::Bytes,
+            site: site_id(Sem::Ctx, k),
+        });
+        out.push(FuncDesc {
             name: format!("join{}", k + 1),
             sem: Sem::Concat,
             params: vec![],
@@ -721,7 +732,7 @@ impl<'a> FilterGen<'a> {
                     Sem::Concat => {
                         *target == RType::Bytes || matches!(target, RType::Array(_)) || true
                     }
-                    Sem::Ctx | Sem::Boom => false,
+                    Sem::Boom => false,
                     _ => Self::reaches(&f.ret, target) || Self::reaches(&RType::arr(f.ret.clone()), target),
                 }
             })
@@ -731,9 +742,13 @@ impl<'a> FilterGen<'a> {
         }
         for _ in 0..4 {
             let fi = *self.r.pick(&cands);
+            if self.used_funcs.contains(&fi) {
+                continue;
+            }
+            // reserve the name before generating the (possibly nested) arguments
+            self.used_funcs.insert(fi);
             if let Some((call, ty)) = self.gen_call(fi, target, depth) {
                 if Self::reaches(&ty, target) {
-                    self.used_funcs.insert(fi);
                     return Some((Base::Call(Box::new(call)), ty));
                 }
             }
@@ -746,17 +761,15 @@ impl<'a> FilterGen<'a> {
     fn gen_call(&mut self, fi: usize, target: &RType, depth: usize) -> Option<(Call, RType)> {
         let f = self.env.funcs[fi].clone();
         if f.sem == Sem::Concat {
-            // concat over bytes or arrays of target's kind
-            let t0 = if Self::reaches(&RType::Bytes, target) && self.r.bool() {
-                RType::Bytes
-            } else if let RType::Array(_) = target {
+            // concat over bytes or over arrays that can reach the target
+            let t0 = if let RType::Array(_) = target {
                 target.clone()
-            } else if Self::reaches(&RType::arr(target.clone()), target) && !target.is_scalar() {
-                target.clone()
-            } else if *target == RType::Bytes {
+            } else if *target == RType::Bytes && self.r.bool() {
                 RType::Bytes
+            } else if target.is_scalar() {
+                RType::arr(target.clone())
             } else {
-                RType::arr(target.primitive().clone())
+                return None;
             };
             if !Self::reaches(&t0, target) {
                 return None;
@@ -914,6 +927,22 @@ impl<'a> FilterGen<'a> {
     pub fn filter(&mut self) -> Expr {
         self.used_funcs.clear();
         self.bool_expr(0).normalize()
+    }
+
+    /// a value expression whose base is a function call
+    pub fn value_call_expr(&mut self, target: &RType) -> Option<Path> {
+        self.used_funcs.clear();
+        let (base, mut t) = self.call_reaching(target, 1)?;
+        let mut idx = vec![];
+        while &t != target {
+            if self.r.chance(1, 4) {
+                break;
+            }
+            let i = self.gen_idx(&t, false);
+            idx.push(i);
+            t = t.elem().unwrap().clone();
+        }
+        Some(Path { base, idx }.normalize())
     }
 
     /// a value expression (path without its own `[*]`) of any type
